@@ -604,6 +604,17 @@ func TestCheck(t *testing.T) {
 		c.Actions = append(c.Actions, Action{Kind: "damage", Damage: scen.Damage{Op: "delete", File: 100}}, Action{Kind: "repair"}, Action{Kind: "restorevol", Vol: 55}, Action{Kind: "verify"}, Action{Kind: "repair", DC: true})
 		do(c)
 	}
+	// more than a thousand identical slices (a long run of zeros) beside an ordinary file: damage, repair, verify, repair again
+	for k, nz := range []int{1030, 2100} {
+		if !cfg.Mine(78+k) || (k > 0 && !cfg.Thorough()) {
+			continue
+		}
+		rec.Class("history-with>1024-identical-slices")
+		c := Case{Format: "par2", Slice: 4, N: 2, Files: []scen.FileSpec{{Name: "z.bin", Size: 4 * nz, Kind: "zeros", Seed: 1}, {Name: "a.dat", Size: 10, Kind: "random", Seed: 2}}}
+		c.Actions = []Action{{Kind: "damage", Damage: scen.Damage{Op: "flip", File: 1, Off: 5}}, {Kind: "verify"}, {Kind: "repair"}, {Kind: "verify"}, {Kind: "repair", DC: true},
+			{Kind: "damage", Damage: scen.Damage{Op: "truncate", File: 0, Off: 4*nz - 6}}, {Kind: "repair"}, {Kind: "verify"}, {Kind: "repair"}}
+		do(c)
+	}
 	cfg.SetRapid(cfg.N(600, 5000), 1)
 	rapid.Check(t, func(rt *rapid.T) {
 		if !do(genCase(rt, cfg.N(25, 40))) {
